@@ -16,8 +16,20 @@
 
   Vocabulary (`Proofs/C11/Feed.lean`): `feed` (segments of one flow through `proto::repl`, the block
   updated in place as `tcp::repl` does), `unseg` (the stream as one segment on a fresh block), `trig`
-  (least prefix length the unsegmented parser answers), `begOff`/`endOff`, `SegIndep` (the conclusion).
-  Helper lemmas: `Proofs/C11/{Ident,Feed,Proto,Tcp}.lean`.
+  (least prefix length the unsegmented parser answers), `begOff`/`endOff`; the conclusion comes in two
+  strengths:
+  * `SegIndepFirst` (`Proofs/RpcFix/SegFirst.lean`) — exactly what the property says about the FIRST
+    request: bare ACKs before the trigger position, the segment containing the trigger byte carries the
+    reply of the unsegmented stream; nothing about later segments.  All corollaries of §2 need only this.
+  * `SegIndep` (⇒ `SegIndepFirst`, `SegIndep.first`) — in addition every LATER segment is answered with
+    the same reply again.  True of HTTP (absorbing final state, `http_after_completion_repeats`).  It WAS
+    true of ONC-RPC while `repl_tcp` kept the parser in its final state (the stale-reply defect); since
+    the repair (the stored state is reset after a reply, `C16.rpc_tcp_state_reset`) later segments start
+    the NEXT call, `SegIndep` is false for ONC-RPC (`rpc_later_segments_not_repeated`) and the ONC-RPC
+    theorems conclude `SegIndepFirst`.  How LATER calls are answered does depend on the segmentation
+    (`rpc_later_calls_depend_on_cut`: bytes following a call in the same segment are dropped) — outside
+    the property, which speaks of the first request.
+  Helper lemmas: `Proofs/C11/{Ident,Feed,Proto,Tcp}.lean`, `Proofs/RpcFix/SegFirst.lean`.
 -/
 import Masscanned.Proofs.C11.Proto
 import Masscanned.Proofs.C11.Tcp
@@ -68,11 +80,11 @@ theorem trig_eq_none_iff (cfg : Cfg) (env : Env) (ci : ClientInfo) (s : Bytes) :
       obtain ⟨h1, h2, _⟩ := (trig_eq_some_iff cfg env ci s n).1 ht
       rw [h n h1] at h2; cases h2
 
-/-! ## 2. what `SegIndep` says (protocol-independent corollaries) -/
+/-! ## 2. what `SegIndepFirst` says (protocol-independent corollaries; `SegIndep` implies it) -/
 
 /-- (i) every segment that ends before the trigger position gets a bare ACK -/
 theorem bare_acks_before_trigger {cfg : Cfg} {env : Env} {ci : ClientInfo} {all : List Bytes}
-    (h : SegIndep cfg env ci all) {t : Tcb} {rs : List (Option Bytes)}
+    (h : SegIndepFirst cfg env ci all) {t : Tcb} {rs : List (Option Bytes)}
     (hfeed : feed cfg env ci {} all = .ok (t, rs)) {n : Nat} (htr : trig cfg env ci all.flatten = some n)
     (k : Nat) (hk : k < all.length) (hend : endOff all k < n) : rs[k]? = some none := by
   obtain ⟨t', rs', R, h1, _, _, h4⟩ := h
@@ -86,10 +98,10 @@ theorem bare_acks_before_trigger {cfg : Cfg} {env : Env} {ci : ClientInfo} {all 
 /-- (ii) the segment containing the trigger byte (stream byte number `n`, 1-based) gets exactly the
     reply the unsegmented stream gets, and that is a reply -/
 theorem reply_at_trigger {cfg : Cfg} {env : Env} {ci : ClientInfo} {all : List Bytes}
-    (h : SegIndep cfg env ci all) {t : Tcb} {rs : List (Option Bytes)}
+    (h : SegIndepFirst cfg env ci all) {t : Tcb} {rs : List (Option Bytes)}
     (hfeed : feed cfg env ci {} all = .ok (t, rs)) {n : Nat} (htr : trig cfg env ci all.flatten = some n)
     {R : Option Bytes} (hR : unseg cfg env ci all.flatten = .ok R)
-    (k : Nat) (hk : k < all.length) (_hbeg : begOff all k < n) (hend : n ≤ endOff all k) :
+    (k : Nat) (hk : k < all.length) (hbeg : begOff all k < n) (hend : n ≤ endOff all k) :
     rs[k]? = some R ∧ R ≠ none := by
   obtain ⟨t', rs', R', h1, _, h3, h4⟩ := h
   rw [hfeed] at h1
@@ -100,11 +112,11 @@ theorem reply_at_trigger {cfg : Cfg} {env : Env} {ci : ClientInfo} {all : List B
   simp only [Except.ok.injEq] at h3
   subst h3
   rw [htr] at h4
-  exact ⟨(h4.2.2.2 k hk).2 hend, h4.1⟩
+  exact ⟨(h4.2.2.2 k hk).2 hbeg hend, h4.1⟩
 
 /-- (iii) without a trigger position no segment is answered (and neither is the unsegmented stream) -/
 theorem no_trigger_no_reply {cfg : Cfg} {env : Env} {ci : ClientInfo} {all : List Bytes}
-    (h : SegIndep cfg env ci all) {t : Tcb} {rs : List (Option Bytes)}
+    (h : SegIndepFirst cfg env ci all) {t : Tcb} {rs : List (Option Bytes)}
     (hfeed : feed cfg env ci {} all = .ok (t, rs)) (htr : trig cfg env ci all.flatten = none) :
     unseg cfg env ci all.flatten = .ok none ∧ ∀ k, k < all.length → rs[k]? = some none := by
   obtain ⟨t', rs', R, h1, _, h3, h4⟩ := h
@@ -120,7 +132,7 @@ theorem no_trigger_no_reply {cfg : Cfg} {env : Env} {ci : ClientInfo} {all : Lis
     containing the trigger byte; all earlier segments get bare ACKs; segment `k` gets the reply `R`
     of the unsegmented stream -/
 theorem first_reply_segment {cfg : Cfg} {env : Env} {ci : ClientInfo} {all : List Bytes}
-    (h : SegIndep cfg env ci all) {n : Nat} (htr : trig cfg env ci all.flatten = some n) :
+    (h : SegIndepFirst cfg env ci all) {n : Nat} (htr : trig cfg env ci all.flatten = some n) :
     ∃ t rs R k, feed cfg env ci {} all = .ok (t, rs) ∧ unseg cfg env ci all.flatten = .ok R ∧ R ≠ none ∧
       k < all.length ∧ begOff all k < n ∧ n ≤ endOff all k ∧
       (∀ j, j < k → rs[j]? = some none) ∧ rs[k]? = some R := by
@@ -128,7 +140,7 @@ theorem first_reply_segment {cfg : Cfg} {env : Env} {ci : ClientInfo} {all : Lis
   rw [htr] at h4
   obtain ⟨hR, hpos, hle, hall⟩ := h4
   obtain ⟨k, hk, hb, he⟩ := exists_segment all n hpos hle
-  refine ⟨t, rs, R, k, h1, h3, hR, hk, hb, he, ?_, (hall k hk).2 he⟩
+  refine ⟨t, rs, R, k, h1, h3, hR, hk, hb, he, ?_, (hall k hk).2 hb he⟩
   intro j hj
   refine (hall j (by omega)).1 ?_
   have : endOff all j ≤ begOff all k := by
@@ -137,11 +149,11 @@ theorem first_reply_segment {cfg : Cfg} {env : Env} {ci : ClientInfo} {all : Lis
     | succ k => rw [begOff_succ]; exact endOff_mono all j k (by omega)
   omega
 
-/-- **two segmentations of the same stream** that both satisfy `SegIndep` agree on everything the
+/-- **two segmentations of the same stream** that both satisfy `SegIndepFirst` agree on everything the
     property names: whether the stream is answered (`trig`), the stream byte `n` that triggers the reply,
     the reply `R`; in each, the first answered segment is the one containing byte `n`. -/
 theorem two_segmentations {cfg : Cfg} {env : Env} {ci : ClientInfo} {all₁ all₂ : List Bytes}
-    (h₁ : SegIndep cfg env ci all₁) (h₂ : SegIndep cfg env ci all₂) (he : all₁.flatten = all₂.flatten) :
+    (h₁ : SegIndepFirst cfg env ci all₁) (h₂ : SegIndepFirst cfg env ci all₂) (he : all₁.flatten = all₂.flatten) :
     ∃ t₁ rs₁ t₂ rs₂, feed cfg env ci {} all₁ = .ok (t₁, rs₁) ∧ feed cfg env ci {} all₂ = .ok (t₂, rs₂) ∧
       match trig cfg env ci all₁.flatten with
       | none => (∀ k, k < all₁.length → rs₁[k]? = some none) ∧ (∀ k, k < all₂.length → rs₂[k]? = some none)
@@ -171,6 +183,12 @@ theorem seg_indep_leading_empty (cfg : Cfg) (env : Env) (ci : ClientInfo) (all :
   induction j with
   | zero => exact h
   | succ j ih => exact segIndep_cons_nil cfg env ci _ ih
+
+theorem seg_indep_first_leading_empty (cfg : Cfg) (env : Env) (ci : ClientInfo) (all : List Bytes)
+    (h : SegIndepFirst cfg env ci all) (j : Nat) : SegIndepFirst cfg env ci (List.replicate j [] ++ all) := by
+  induction j with
+  | zero => exact h
+  | succ j ih => exact segIndepFirst_cons_nil cfg env ci _ (protoRepl_fresh_nil cfg env ci) ih
 
 /-! ## 3. HTTP -/
 
@@ -246,35 +264,43 @@ theorem http_after_completion_repeats (cfg : Cfg) (env : Env) (ci : ClientInfo) 
 /-! ## 4. ONC-RPC over TCP -/
 
 /-- the signature form: the first segment is `sg ++ a'` where the matcher completes the RPC-over-TCP
-    signature exactly on `sg` -/
+    signature exactly on `sg`.  Conclusion `SegIndepFirst` (the first call): since `repl_tcp` resets the
+    stored parser state after a reply, the segments after the one carrying the reply belong to the next
+    call and `SegIndep` no longer holds (`rpc_later_segments_not_repeated`). -/
 theorem rpc_seg_indep_sig (cfg : Cfg) (env : Env) (ci : ClientInfo) (ip : Ip) (port : Nat)
     (hip : ci.ipDst = some ip) (hport : ci.portDst = some port) (sg : Bytes) (st : Nat)
     (hsig : Sig sg PROTO_RPC_TCP st) (a' : Bytes) (segs : List Bytes) :
-    SegIndep cfg env ci ((sg ++ a') :: segs) := by
+    SegIndepFirst cfg env ci ((sg ++ a') :: segs) := by
   by_cases hc : HasCookie ci
-  · exact segIndep_of_sig cfg env ci sg (rpcBlock cfg.ovf sg st)
-      (fun x => rpcOut cfg.ovf ci (rpcSt cfg.ovf (sg ++ x)))
+  · exact segIndepFirst_of_sig cfg env ci sg (rpcBlock cfg.ovf sg st)
+      (fun x => rpcOut cfg.ovf ci (rpcSt cfg.ovf (sg ++ x))) RpcBlockInv
       (fun x => ⟨ci, rpc_fresh cfg env ci hc ip port hip hport sg st hsig x⟩)
-      (fun x d => ⟨ci, rpc_step cfg env ci hc ip port hip hport sg st x d⟩)
+      (fun x d hx => ⟨ci, rpc_step cfg env ci hc ip port hip hport sg st x d hx⟩)
+      (fun x => rpcBlock_inv cfg.ovf sg st x)
+      (fun t d ht => rpc_total cfg env ci hc ip port hip hport t d ht)
       (fun n hn => protoRepl_short cfg env ci hc hsig n hn) (sig_ne_nil hsig)
       (fun x y h => rpc_mono cfg.ovf ci sg x y h) a' segs
-  · exact segIndep_nocookie cfg env ci hc _
+  · exact (segIndep_nocookie cfg env ci hc _).first
 
 /-- **C11 for ONC-RPC over TCP (partial: the matcher identifies the protocol within the first
     segment)**: for ANY first segment `a` on which `search_next` reports `PROTO_RPC_TCP` — i.e. any
     segmentation whose first cut is at or after the end of the signature as determined by the matcher —
-    and any further segments, with and without overflow checks.  (`ipDst`/`portDst` are always set when
-    `tcp::repl` hands data up; without them `build_repl` panics on `.unwrap()`.) -/
+    and any further segments, with and without overflow checks: never a panic, bare ACKs before the
+    trigger position of the first call, the unsegmented reply on the segment containing it
+    (`SegIndepFirst`; the further segments are the next calls, see `C16.rpc_tcp_calls_all_answered`).
+    (`ipDst`/`portDst` are always set when `tcp::repl` hands data up; without them `build_repl` panics on
+    `.unwrap()`.) -/
 theorem rpc_seg_indep_partial (cfg : Cfg) (env : Env) (ci : ClientInfo) (ip : Ip) (port : Nat)
     (hip : ci.ipDst = some ip) (hport : ci.portDst = some port) (a : Bytes) (st n : Nat)
     (hid : protoTbl.searchNext baseState a = .ok (PROTO_RPC_TCP, st, n)) (segs : List Bytes) :
-    SegIndep cfg env ci (a :: segs) := by
+    SegIndepFirst cfg env ci (a :: segs) := by
   obtain ⟨hsig, _⟩ := sig_of_found hid (by decide)
   have := rpc_seg_indep_sig cfg env ci ip port hip hport (a.take n) st hsig (a.drop n) segs
   rwa [List.take_append_drop] at this
 
 /-- the reply carried by the completing segment is `repl_tcp`'s reply in the parser state reached on
-    the whole stream; it does not change with further bytes (`C16.rpc_tcp_done_sticky`) -/
+    the whole stream; within one segment it does not change with further bytes
+    (`C16.rpc_tcp_trailing_ignored`; `rpc_mono`) -/
 theorem rpc_seg_reply (cfg : Cfg) (env : Env) (ci : ClientInfo) (hc : HasCookie ci) (ip : Ip) (port : Nat)
     (hip : ci.ipDst = some ip) (hport : ci.portDst = some port) (sg : Bytes) (st : Nat)
     (hsig : Sig sg PROTO_RPC_TCP st) (x : Bytes) :
@@ -360,7 +386,7 @@ theorem handler_sees_current_segment_only (cfg : Cfg) (env : Env) (ci : ClientIn
 theorem tcp_flow_segments (cfg : Cfg) (env : Env) (ci : ClientInfo) (sp dp : Nat) (p0 : Bytes) (ps : List Bytes)
     (hps : ∀ p, p ∈ p0 :: ps → DataSeg sp dp p) (st : Table)
     (hg : st.get? (flowCk cfg ci sp dp) = none) (hack : flowCk cfg ci sp dp = tcpAckno p0)
-    (h : SegIndep cfg env (flowCi cfg ci sp dp) ((p0 :: ps).map tcpPayload)) :
+    (h : SegIndepFirst cfg env (flowCi cfg ci sp dp) ((p0 :: ps).map tcpPayload)) :
     ∃ st' outs t rs, tcpFeed cfg env ci st (p0 :: ps) = .ok (st', outs) ∧
       feed cfg env (flowCi cfg ci sp dp) {} ((p0 :: ps).map tcpPayload) = .ok (t, rs) ∧
       st'.get? (flowCk cfg ci sp dp) = some t ∧ Replies (p0 :: ps) rs outs := by
@@ -403,6 +429,22 @@ private def unsegOf (p : Bytes) : Option (Option Bytes) :=
   | .ok r => some r
   | .error _ => none
 
+private theorem not_segIndepFirst_of (all : List Bytes) (n k : Nat)
+    (hrs : (repliesOf all).map (fun rs => rs[k]?) = some (some none))
+    (htr : trig cfg0 env0 ci0 all.flatten = some n) (hk : k < all.length) (hbeg : begOff all k < n)
+    (hend : n ≤ endOff all k) :
+    ¬ SegIndepFirst cfg0 env0 ci0 all := by
+  rintro ⟨t, rs, R, hfeed, _, _, h4⟩
+  rw [htr] at h4
+  have h5 := (h4.2.2.2 k hk).2 hbeg hend
+  unfold repliesOf at hrs
+  rw [hfeed] at hrs
+  simp only [Option.map_some, Option.some.injEq] at hrs
+  rw [hrs] at h5
+  simp only [Option.some.injEq] at h5
+  exact h4.1 h5.symm
+
+/-- the same for `SegIndep`, any segment ending at or after the trigger position -/
 private theorem not_segIndep_of (all : List Bytes) (n k : Nat)
     (hrs : (repliesOf all).map (fun rs => rs[k]?) = some (some none))
     (htr : trig cfg0 env0 ci0 all.flatten = some n) (hk : k < all.length) (hend : n ≤ endOff all k) :
@@ -444,15 +486,52 @@ theorem k3_rpc_unsegmented_answered :
   decide +kernel
 
 /-- **K3**: the unrestricted statement of C11 is false — for HTTP and for ONC-RPC, with a client info as
-    `tcp::repl` produces it -/
+    `tcp::repl` produces it — already in its first-request form `SegIndepFirst` (hence also as `SegIndep`) -/
 theorem c11_full_false :
+    ¬ (∀ (cfg : Cfg) (env : Env) (ci : ClientInfo) (all : List Bytes), HasCookie ci → SegIndepFirst cfg env ci all) ∧
     ¬ (∀ (cfg : Cfg) (env : Env) (ci : ClientInfo) (all : List Bytes), HasCookie ci → SegIndep cfg env ci all) := by
-  intro h
-  exact not_segIndep_of k3Http 18 1 (by decide +kernel) (by decide +kernel) (by decide) (by decide +kernel)
-    (h cfg0 env0 ci0 k3Http (by unfold HasCookie; decide))
+  have key : ¬ SegIndepFirst cfg0 env0 ci0 k3Http :=
+    not_segIndepFirst_of k3Http 18 1 (by decide +kernel) (by decide +kernel) (by decide) (by decide +kernel)
+      (by decide +kernel)
+  exact ⟨fun h => key (h cfg0 env0 ci0 k3Http (by unfold HasCookie; decide)),
+    fun h => key (h cfg0 env0 ci0 k3Http (by unfold HasCookie; decide)).first⟩
 
-theorem c11_full_false_rpc : ¬ SegIndep cfg0 env0 ci0 k3Rpc :=
-  not_segIndep_of k3Rpc 44 1 (by decide +kernel) (by decide +kernel) (by decide) (by decide +kernel)
+theorem c11_full_false_rpc : ¬ SegIndepFirst cfg0 env0 ci0 k3Rpc :=
+  not_segIndepFirst_of k3Rpc 44 1 (by decide +kernel) (by decide +kernel) (by decide) (by decide +kernel)
+    (by decide +kernel)
+
+/-! ### ONC-RPC after the first reply: the next call, not a repetition
+
+  Since `repl_tcp` resets the stored parser state, `SegIndep` (every later segment gets the first reply
+  again) is false for ONC-RPC, and rightly so. -/
+
+/-- the complete call followed by an empty segment: the call is answered, the empty segment gets a
+    bare ACK — not the reply again (`SegIndep` would demand the reply) -/
+private def rpcThenEmpty : List Bytes := [call, []]
+
+theorem rpc_later_segments_not_repeated :
+    (repliesOf rpcThenEmpty).map (·.map (·.map hexOf)) =
+      some [some "8000001c0102030400000001000000000000000000000000000000000000006f", none] ∧
+    ¬ SegIndep cfg0 env0 ci0 rpcThenEmpty :=
+  ⟨by decide +kernel,
+   not_segIndep_of rpcThenEmpty 44 1 (by decide +kernel) (by decide +kernel) (by decide) (by decide +kernel)⟩
+
+/-- a second call (NULL procedure, xid 0x0a0b0c0d) -/
+private def call2 : Bytes := C16.tcpMsg (C16.mkCall 0x0a0b0c0d 100000 2 0)
+
+/-- observation (outside the property, which speaks of the first request): how LATER calls are answered
+    depends on the cut.  Sent as two segments both calls are answered, each with its own xid; sent in ONE
+    segment only the first is (the bytes after the end of a call are dropped,
+    `C16.rpc_tcp_trailing_ignored`); cut inside the second call, its first bytes are dropped with the
+    first segment and the rest does not make a call. -/
+theorem rpc_later_calls_depend_on_cut :
+    (repliesOf [call, call2]).map (·.map (·.map (fun r => hexOf (r.take 8)))) =
+      some [some "8000001c01020304", some "800000180a0b0c0d"] ∧
+    (repliesOf [call ++ call2]).map (·.map (·.map (fun r => hexOf (r.take 8)))) =
+      some [some "8000001c01020304"] ∧
+    (repliesOf [call ++ call2.take 10, call2.drop 10]).map (·.map (·.map (fun r => hexOf (r.take 8)))) =
+      some [some "8000001c01020304", none] := by
+  decide +kernel
 
 /-- the identification itself is not affected: segment by segment the matcher reports the same id as on
     the whole stream — HTTP found in the second segment of `GE | T / …`, RPC in the second of the cut call -/
@@ -507,14 +586,22 @@ private def rpc3 : List Bytes := [call.take 30, (call.drop 30).take 5, call.drop
 example : protoTbl.searchNext baseState (call.take 28) = .ok (PROTO_RPC_TCP, rpcRow, 28) ∧
     protoTbl.searchNext baseState (call.take 30) = .ok (PROTO_RPC_TCP, rpcRow, 28) ∧
     protoTbl.matchLimit ≤ rpcRow := by decide +kernel
-example : SegIndep cfg0 env0 ci0 rpc2 :=
+example : SegIndepFirst cfg0 env0 ci0 rpc2 :=
   rpc_seg_indep_partial cfg0 env0 ci0 _ _ rfl rfl (call.take 28) rpcRow 28 (by decide +kernel) _
-example : SegIndep cfg0 env0 ci0 rpc3 :=
+example : SegIndepFirst cfg0 env0 ci0 rpc3 :=
   rpc_seg_indep_partial cfg0 env0 ci0 _ _ rfl rfl (call.take 30) rpcRow 28 (by decide +kernel) _
 example : splitOk rpc2 44 = true ∧ splitOk rpc3 44 = true := by decide +kernel
 example : (repliesOf rpc3).map (·.map (·.map hexOf)) =
     some [none, none, some "8000001c0102030400000001000000000000000000000000000000000000006f"] := by
   decide +kernel
+-- with further segments after the first call (a second call cut in two): the theorem applies, the first
+-- call is answered on the segment completing it, and — beyond the theorem — so is the second
+private def rpc5 : List Bytes := [call.take 30, (call.drop 30).take 5, call.drop 35, call2.take 7, call2.drop 7]
+example : SegIndepFirst cfg0 env0 ci0 rpc5 :=
+  rpc_seg_indep_partial cfg0 env0 ci0 _ _ rfl rfl (call.take 30) rpcRow 28 (by decide +kernel) _
+example : trig cfg0 env0 ci0 rpc5.flatten = some 44 ∧ begOff rpc5 2 = 35 ∧ endOff rpc5 2 = 44 ∧
+    (repliesOf rpc5).map (·.map (·.map (fun r => hexOf (r.take 8)))) =
+      some [none, none, some "8000001c01020304", none, some "800000180a0b0c0d"] := by decide +kernel
 
 /-! ### the TCP layer on a concrete flow -/
 
@@ -554,6 +641,7 @@ example : (match tcpFeed cfg0 env0 ciL3 [] tcp3 with
 #print axioms first_reply_segment
 #print axioms two_segmentations
 #print axioms seg_indep_leading_empty
+#print axioms seg_indep_first_leading_empty
 #print axioms http_seg_indep_partial
 #print axioms http_unseg_prefix
 #print axioms http_seg_reply
@@ -575,5 +663,7 @@ example : (match tcpFeed cfg0 env0 ciL3 [] tcp3 with
 #print axioms k3_rpc_unsegmented_answered
 #print axioms c11_full_false
 #print axioms c11_full_false_rpc
+#print axioms rpc_later_segments_not_repeated
+#print axioms rpc_later_calls_depend_on_cut
 
 end Masscanned.C11
